@@ -275,4 +275,43 @@ theorem C01_apid_from_raw_packed (h : Sph) (wf : WF h) (rest : Bytes) :
 example : WF ⟨5, 1, 1, 0x7AB, 2, 0x2BCD, 0xFEDC⟩ := by decide
 example : Spec.octets ⟨5, 1, 1, 0x7AB, 2, 0x2BCD, 0xFEDC⟩ = [0xBF, 0xAB, 0xAB, 0xCD, 0xFE, 0xDC] := by decide
 
+/-- the encoding is injective on the domain: two in-range headers with the same six octets are the
+    same header (consequence of `C01_unpack_pack`) -/
+theorem C01_octets_injective (h k : Sph) (wh : WF h) (wk : WF k)
+    (he : Spec.octets h = Spec.octets k) : h = k := by
+  have r1 := C01_unpack_pack h wh []
+  have r2 := C01_unpack_pack k wk []
+  rw [he, r2] at r1
+  cases r1; rfl
+
+/-- the same for `pack()` itself, as an iff: in-range headers are equal iff they pack to the same octets -/
+theorem C01_pack_injective (h k : Sph) (wh : WF h) (wk : WF k) : h.pack = k.pack ↔ h = k := by
+  refine ⟨fun he => ?_, fun he => by rw [he]⟩
+  rw [C01_pack_exact h wh, C01_pack_exact k wk] at he
+  exact C01_octets_injective h k wh wk (Except.ok.inj he)
+
+/-- packet-identification word: in-range `PacketId`s are equal iff their 13-bit raw values are equal -/
+theorem C01_pid_raw_injective (p q : PacketId) (hp : p.ptype < 2 ∧ p.shf < 2 ∧ p.apid < 2048)
+    (hq : q.ptype < 2 ∧ q.shf < 2 ∧ q.apid < 2048) : p.raw = q.raw ↔ p = q := by
+  refine ⟨fun he => ?_, fun he => by rw [he]⟩
+  have r1 := C01_pid_roundtrip p hp.1 hp.2.1 hp.2.2
+  have r2 := C01_pid_roundtrip q hq.1 hq.2.1 hq.2.2
+  rw [he, r2] at r1
+  exact r1.symm
+
+/-- sequence-control word: in-range `PacketSeqCtrl`s are equal iff their 16-bit raw values are equal -/
+theorem C01_psc_raw_injective (p q : Psc) (hp : p.flags < 4 ∧ p.count < 16384)
+    (hq : q.flags < 4 ∧ q.count < 16384) : p.raw = q.raw ↔ p = q := by
+  refine ⟨fun he => ?_, fun he => by rw [he]⟩
+  have r1 := C01_psc_roundtrip p hp.1 hp.2
+  have r2 := C01_psc_roundtrip q hq.1 hq.2
+  rw [he, r2] at r1
+  exact (Except.ok.inj r1).symm
+
+-- non-vacuity of the injectivity statements: two distinct in-range values, distinct encodings
+example : WF ⟨0, 0, 0, 1, 3, 0, 0⟩ ∧ WF ⟨0, 0, 0, 2, 3, 0, 0⟩ ∧
+    Spec.octets ⟨0, 0, 0, 1, 3, 0, 0⟩ ≠ Spec.octets ⟨0, 0, 0, 2, 3, 0, 0⟩ := by decide
+example : PacketId.raw ⟨1, 0, 5⟩ ≠ PacketId.raw ⟨0, 1, 5⟩ := by decide
+example : Psc.raw ⟨3, 7⟩ ≠ Psc.raw ⟨2, 7⟩ := by decide
+
 end SpVerif.Props.C01
